@@ -176,8 +176,13 @@ func checkC20(c *Check) {
 		okc := 0
 		ast.Inspect(fi.Decl.Body, func(n ast.Node) bool {
 			if kv, ok := n.(*ast.KeyValueExpr); ok {
-				k := kv.Key.(*ast.Ident).Name
-				if (k == "eq" || k == "less") && L.Src(kv.Value) == "m."+k {
+				kid, isId := kv.Key.(*ast.Ident)
+				if !isId {
+					return true
+				}
+				k := kid.Name
+				// the value is the same-named field of the map that is copied (whatever the parameter is called)
+				if sel, isSel := ast.Unparen(kv.Value).(*ast.SelectorExpr); isSel && (k == "eq" || k == "less") && sel.Sel.Name == k && isParamOf(om.TypesInfo, fi, sel.X) {
 					okc++
 				}
 			}
@@ -191,7 +196,9 @@ func checkC20(c *Check) {
 		ast.Inspect(fi.Decl.Body, func(n ast.Node) bool {
 			if call, ok := n.(*ast.CallExpr); ok {
 				if fn := Callee(at.TypesInfo, call); fn != nil && fn.Name() == "copyNode" && len(call.Args) == 3 {
-					okc = L.Src(call.Args[1]) == "t.key_eq" && L.Src(call.Args[2]) == "t.key_less"
+					f1, ok1 := ast.Unparen(call.Args[1]).(*ast.SelectorExpr)
+					f2, ok2 := ast.Unparen(call.Args[2]).(*ast.SelectorExpr)
+					okc = ok1 && ok2 && f1.Sel.Name == "key_eq" && f2.Sel.Name == "key_less" && isParamOf(at.TypesInfo, fi, f1.X) && isParamOf(at.TypesInfo, fi, f2.X)
 				}
 			}
 			return true
@@ -275,7 +282,7 @@ func checkC20(c *Check) {
 					}
 				}
 			case *ast.AssignStmt:
-				if len(x.Lhs) == 1 && L.Src(x.Lhs[0]) == "node.hasValue" && L.Src(x.Rhs[0]) == "true" {
+				if len(x.Lhs) == 1 && len(x.Rhs) == 1 && isFieldNamed(fieldOf(at.TypesInfo, x.Lhs[0]), "hasValue") && L.Src(x.Rhs[0]) == "true" {
 					hasVal = true
 				}
 			}
